@@ -129,6 +129,7 @@ let fq : order list ref = ref []
 (* ideal time-priority level (Spec/Priority.v), run beside the concrete one for C04 *)
 let il : ilevel ref = ref (inew N0)
 let il_gen = ref N0
+let taints : string list ref = ref []
 
 let fuel = nat_of_int 20000
 
@@ -269,14 +270,20 @@ let aligned_strong (l : level) (i : ilevel) =
   && nodup_oids (live_tickets l.lq)
 
 let ideal_suffix () =
-  Printf.sprintf " aligned=%d iord=%s" (if aligned_strong ses.lvl !il then 1 else 0)
+  Printf.sprintf " aligned=%d taint=%s iord=%s" (if aligned_strong ses.lvl !il then 1 else 0)
+    (if !taints = [] then "-" else String.concat "," (List.rev !taints))
     (list_str string_of_oid (List.map oid_of (!il).iorders))
+
+(* a known deviation (K1 / K2) is recorded when an operation loses the alignment *)
+let note_taint pre cause =
+  if pre && not (aligned_strong ses.lvl !il) && not (List.mem cause !taints) then taints := cause :: !taints
 
 (* re-base the ideal level on the concrete pop order (after a known deviation) *)
 let resync () =
   let l = ses.lvl in
   let os = List.filter_map (fun k -> lookup k l.lq.qmap) (abs l.lq) in
-  il := { iprice = l.price; iorders = os }
+  il := { iprice = l.price; iorders = os };
+  taints := []
 
 let handle line =
   match String.split_on_char ' ' line with
@@ -288,20 +295,23 @@ let handle line =
   | ["NEW"; p; mode] ->
     ses.lvl <- new_level (n_of_string p); ses.gen <- N0; ses.oracle <- (mode = "O");
     ses.iface_ok <- true; ses.asks <- 0; fork := None; fork_gen := N0;
-    il := inew (n_of_string p); il_gen := N0;
+    il := inew (n_of_string p); il_gen := N0; taints := [];
     "= ok"
   | ["ADD"; o] ->
     let o = order_of_string o in
+    let pre = aligned_strong ses.lvl !il in
     ses.lvl <- add_order ses.lvl o;
     let fk = (match !fork with
         | Some f -> let f' = add_order f o in fork := Some f';
           " || ret=" ^ string_of_order o ^ " " ^ string_of_state f'
         | None -> "") in
     il := iadd !il o;
+    note_taint pre "K2";
     "= ret=" ^ string_of_order o ^ " " ^ string_of_state ses.lvl ^ ideal_suffix () ^ fk
   | ["MATCH"; qty; taker] ->
     let qty = n_of_string qty and taker = oid_of_string taker in
     let g0 = ses.gen in
+    let pre = aligned_strong ses.lvl !il in
     let main =
       (match do_match ses.lvl ses.gen qty taker with
        | Some (l', g', r) -> ses.lvl <- l'; ses.gen <- g';
@@ -312,7 +322,8 @@ let handle line =
        | Some ((i', _), r) -> il := i';
          " ideal=" ^ String.concat ";" (String.split_on_char ' ' (string_of_result r))
        | None -> " ideal=nofuel") in
-    let main = main ^ ideal ^ ideal_suffix () in
+    note_taint pre "K1";
+    let main = main ^ ideal ^ (if pre then " pre=1" else " pre=0") ^ ideal_suffix () in
     let fk =
       (match !fork with
        | Some f ->
@@ -324,6 +335,7 @@ let handle line =
     "= " ^ main ^ fk
   | ["UPD"; u] ->
     let u = update_of_string u in
+    let pre = aligned_strong ses.lvl !il in
     let (l', out) = update_order ses.lvl u in
     ses.lvl <- l';
     let fk = (match !fork with
@@ -332,6 +344,7 @@ let handle line =
         | None -> "") in
     let (i', iout) = iupdate !il u in
     il := i';
+    note_taint pre "K2";
     "= out=" ^ string_of_uout out ^ " " ^ string_of_state l' ^ " iout=" ^ string_of_uout iout ^ ideal_suffix () ^ fk
   | ["SNAP"] ->
     let s = snapshot_of ses.lvl in
